@@ -56,6 +56,7 @@ Fixpoint walk_raw (name : pstr) (j : json) : stream :=
   match j with
   | JObj kv => fold_right (fun p acc => s_app (walk_raw (fst p) (snd p)) acc) (s_ok []) kv
   | JArr l => fold_right (fun x acc => s_app (walk_raw name x) acc) (s_ok []) l
+  | JNull | JStr _ => s_ok []          (* None and str children are skipped *)
   | _ => s_err EType
   end.
 
@@ -105,7 +106,7 @@ Section Walk.
                 if pstr_eqb name key_types_name then s_err EValue else s_ok []
             | LRaw j => walk_raw name j
             | LNone | LBytes =>
-                if pstr_eqb name key_types_name then s_err EValue else s_err EType
+                if pstr_eqb name key_types_name then s_err EValue else s_ok []
             end
         | Ref _ id =>
             match find_id id root with
